@@ -14,6 +14,7 @@ import Genq.Model.Collect
 import Genq.Model.Vars
 import Genq.Model.TypeMap
 import Genq.Model.Imports
+import Genq.Model.Codec
 open Lean
 namespace Genq.Driver
 
@@ -484,6 +485,97 @@ def opVars (op : String) (j : Json) : Except String Json := do
     return Json.mkObj [("out", Json.arr ((Vars.keys vs).map Json.str).toArray)]
   | _ => throw s!"unknown op {op}"
 
+
+/-! ### codec.* — the model of the generated (un)marshalers (Model/Codec.lean) -/
+
+/-- tagged JSON (order and duplicate keys of objects preserved, numbers as tokens):
+    null | {"b":bool} | {"n":"tok"} | {"s":"…"} | {"a":[…]} | {"o":[[k,v],…]} -/
+partial def parseTJ (j : Json) : Except String Types.J := do
+  match j with
+  | .null => return .null
+  | _ =>
+    match j.getObjVal? "b" with
+    | .ok (.bool b) => return .bool b
+    | _ =>
+    match j.getObjVal? "n" with
+    | .ok (.str t) => return .num t
+    | _ =>
+    match j.getObjVal? "s" with
+    | .ok (.str t) => return .str t
+    | _ =>
+    match j.getObjVal? "a" with
+    | .ok (.arr a) => return .arr (← a.toList.mapM parseTJ)
+    | _ =>
+    match j.getObjVal? "o" with
+    | .ok (.arr a) =>
+      let kvs ← a.toList.mapM fun e => do
+        let p ← e.getArr?
+        if h : p.size = 2 then pure ((← p[0].getStr?), (← parseTJ p[1])) else throw "kv entry"
+      return .obj kvs
+    | _ => throw "tagged JSON"
+
+partial def tjOut : Types.J → Json
+  | .null => Json.null
+  | .bool b => Json.mkObj [("b", b)]
+  | .num t => Json.mkObj [("n", t)]
+  | .str t => Json.mkObj [("s", t)]
+  | .arr xs => Json.mkObj [("a", Json.arr (xs.map tjOut).toArray)]
+  | .obj kvs => Json.mkObj [("o", Json.arr (kvs.map fun (k, v) => Json.arr #[Json.str k, tjOut v]).toArray)]
+
+mutual
+partial def parseTy (j : Json) : Except String Codec.Ty := do
+  match (← getStr j "k") with
+  | "leaf" =>
+    match (← getStr j "leaf") with
+    | "str" => return .leaf .str | "int" => return .leaf .int | "float" => return .leaf .float
+    | "bool" => return .leaf .bool | "any" => return .leaf .any | "custom" => return .leaf .custom
+    | l => throw s!"leaf {l}"
+  | "ptr" => return .ptr (← parseTy (← j.getObjVal? "t"))
+  | "slice" => return .slice (← parseTy (← j.getObjVal? "t"))
+  | "struct" => return .struct (← parseFlds (← getArr j "fs").toList)
+  | "iface" => return .iface (← parseImpls (← getArr j "impls").toList)
+  | k => throw s!"type kind {k}"
+partial def parseFlds : List Json → Except String Codec.Flds
+  | [] => return .nil
+  | f :: rest => do
+    return .cons (← getStr f "json") (← getBool f "emb") (← parseTy (← f.getObjVal? "t")) (← parseFlds rest)
+partial def parseImpls : List Json → Except String Codec.Impls
+  | [] => return .nil
+  | f :: rest => do
+    return .cons (← getStr f "tn") (← parseTy (← f.getObjVal? "t")) (← parseImpls rest)
+end
+
+partial def valOut : Codec.Val → Json
+  | .leaf j => Json.mkObj [("leaf", tjOut j)]
+  | .struct vs => Json.mkObj [("struct", Json.arr (vs.map valOut).toArray)]
+  | .nilPtr => Json.str "nilPtr"
+  | .ptr v => Json.mkObj [("ptr", valOut v)]
+  | .nilSlice => Json.str "nilSlice"
+  | .slice vs => Json.mkObj [("slice", Json.arr (vs.map valOut).toArray)]
+  | .nilIface => Json.str "nilIface"
+  | .iface tn v => Json.mkObj [("iface", tn), ("v", valOut v)]
+
+def errOut : Codec.Err → String
+  | .typeMismatch => "type-mismatch" | .missingTypename => "missing-typename"
+  | .unexpectedType tn => "unexpected-type:" ++ tn | .shape => "shape"
+
+def opCodec (op : String) (j : Json) : Except String Json := do
+  match op with
+  | "codec.run" =>
+    -- decode the input with the model, marshal the decoded value, decode that again
+    let t ← parseTy (← j.getObjVal? "ty")
+    let inp ← parseTJ ((j.getObjVal? "json").toOption.getD Json.null)
+    let supported := Codec.noFoldTwins t
+    match Codec.dec t inp with
+    | .error e => return Json.mkObj [("supported", supported), ("ok", false), ("err", errOut e)]
+    | .ok v =>
+      let out := Codec.enc t v
+      let again : Json := match Codec.dec t out with
+        | .error e => Json.mkObj [("ok", false), ("err", errOut e)]
+        | .ok v2 => Json.mkObj [("ok", true), ("val", valOut v2)]
+      return Json.mkObj [("supported", supported), ("ok", true), ("val", valOut v), ("enc", tjOut out), ("again", again)]
+  | _ => throw s!"unknown op {op}"
+
 def dispatch (j : Json) : Json :=
   let r : Except String Json := do
     let op ← getStr j "op"
@@ -501,6 +593,7 @@ def dispatch (j : Json) : Json :=
     else if op.startsWith "vars." then opVars op j
     else if op.startsWith "tm." then opTypeMap op j
     else if op.startsWith "imports." then opImports op j
+    else if op.startsWith "codec." then opCodec op j
     else throw s!"unknown op {op}"
   let idf := match j.getObjVal? "id" with | .ok v => [("id", v)] | .error _ => []
   match r with
